@@ -151,10 +151,10 @@ func (s NameSet) Pick(t *rapid.T) Name { return s[rapid.IntRange(0, len(s)-1).Dr
 // Records
 
 var (
-	ttlSpecials    = []uint32{0, 1, 2, 29, 30, 31, 300, 3600, 1<<31 - 1, 1 << 31, 1<<32 - 1}
-	knownTypes     = []uint16{1, 28, 2, 5, 12, 15, 6, 33}
-	opaqueTypes    = []uint16{16, 65280, 65281, 65534, 32769, 4000} // TXT + private use / unassigned
-	classSpecials  = []uint16{1, 1, 1, 1, 3, 4, 255, 254, 0, 65535}
+	ttlSpecials   = []uint32{0, 1, 2, 29, 30, 31, 300, 3600, 1<<31 - 1, 1 << 31, 1<<32 - 1}
+	knownTypes    = []uint16{1, 28, 2, 5, 12, 15, 6, 33}
+	opaqueTypes   = []uint16{16, 65280, 65281, 65534, 32769, 4000} // TXT + private use / unassigned
+	classSpecials = []uint16{1, 1, 1, 1, 3, 4, 255, 254, 0, 65535}
 )
 
 func GenTTL(t *rapid.T) uint32 {
